@@ -255,7 +255,7 @@ func verifyFunc(prog *Program, fi *FuncInfo, ct *Contract, opts *Options) (fr *F
 			defer e.catchSpec(fi.Key+" requires/modifies", fd.Pos())
 			env := e.entryEnv(st)
 			for _, r := range ct.Requires {
-				e.assumeTagged(st, e.specBool(st, r, env), r.Tag)
+				e.assumeClause(st, r, env)
 			}
 			e.modRefs = e.modLocs(ct.Modifies, env)
 		}()
@@ -323,6 +323,7 @@ func (e *Exec) checkPosts(st *State, p token.Pos) {
 	}
 	for k, en := range e.contract.Ensures {
 		g := e.specBool(st, en, env)
+		e.pendingView = e.viewGoalOf(en, env, st)
 		e.obligeNamed(st, fmt.Sprintf("%s/post#%d@r%d", e.fn.Key, k, ret), "post", en.Tag, g, "postcondition: "+en.Src, p)
 	}
 }
@@ -391,6 +392,7 @@ func (o *Obligation) querySel(extra []Term, selectPremises bool) string {
 	e := o.exec
 	var body strings.Builder
 	var predAxioms []string
+	included := map[int]bool{}
 	anc := o.ancestors()
 	for i, a := range e.assumps[:o.NAssump] {
 		if selectPremises {
@@ -411,6 +413,7 @@ func (o *Obligation) querySel(extra []Term, selectPremises bool) string {
 				continue
 			}
 		}
+		included[i] = true
 		if strings.HasPrefix(a, predAxiomPrefix) {
 			predAxioms = append(predAxioms, a)
 			continue
@@ -422,7 +425,21 @@ func (o *Obligation) querySel(extra []Term, selectPremises bool) string {
 	for _, x := range extra {
 		body.WriteString("(assert " + x.S + ")\n")
 	}
-	body.WriteString("(assert (not " + o.Goal.S + "))\n")
+	if o.ViewGoal != "" {
+		// set-extensionality style goal: prove the body at one skolem constant, with every
+		// view-quantified premise instantiated at that constant (instances of premises: sound)
+		sk := "v!sk"
+		body.WriteString("(declare-fun v!sk () Int)\n(assert (and (<= 0 v!sk) (< v!sk 65536)))\n")
+		for _, vf := range e.viewFacts {
+			if vf.at >= o.NAssump || !included[vf.at] {
+				continue
+			}
+			body.WriteString("(assert (=> " + vf.pc + " " + strings.ReplaceAll(vf.body, viewPH, sk) + "))\n")
+		}
+		body.WriteString("(assert (not " + strings.ReplaceAll(o.ViewGoal, viewPH, sk) + "))\n")
+	} else {
+		body.WriteString("(assert (not " + o.Goal.S + "))\n")
+	}
 	txt := body.String()
 	// definitions of named set predicates: only those reachable from the obligation (cone of influence)
 	if len(predAxioms) > 0 {
